@@ -17,6 +17,7 @@ import (
 	"github.com/LemoFoundationLtd/lemochain-core/common/crypto"
 	"github.com/LemoFoundationLtd/lemochain-core/store"
 	"github.com/LemoFoundationLtd/lemochain-core/store/protocol"
+	"github.com/LemoFoundationLtd/lemochain-core/store/trie"
 
 	"verifharness/engine"
 	"verifharness/tla"
@@ -131,8 +132,17 @@ func bigInt(b *big.Int) int {
 	return int(b.Int64())
 }
 
-// project reads every observable attribute of one account through the AccountAccessor getters.
+// slots names the trie keys the projection reads: two storage slots, an issued asset code, an asset id with metadata
+// and an asset id the account holds equity of.
+type slots struct{ s1, s2, ax, aid, eq common.Hash }
+
 func project(acc types.AccountAccessor) map[string]interface{} {
+	return projectAt(acc, slots{key1, key2, assetX, assetID, equityID})
+}
+
+// projectAt reads every observable attribute of one account through the AccountAccessor getters.
+func projectAt(acc types.AccountAccessor, sl slots) map[string]interface{} {
+	key1, key2, assetX, assetID, equityID := sl.s1, sl.s2, sl.ax, sl.aid, sl.eq
 	o := map[string]interface{}{}
 	o["bal"] = bigInt(acc.GetBalance())
 	if code, err := acc.GetCode(); err != nil {
@@ -207,6 +217,14 @@ func project(acc types.AccountAccessor) map[string]interface{} {
 // a real database is opened once per dbReuse behaviours (12 ms each on tmpfs)
 const dbReuse = 500
 
+// op is one setter call that is still in effect: the adapter's own record of what was executed and not reverted.
+// At Seal the surviving calls are executed once more, alone, on a second manager (the run in which the reverted work
+// never happened); the trace specification checks the list against its own journal before it trusts that run.
+type op struct {
+	n, k string
+	v    tla.Value
+}
+
 type adapter struct {
 	dir    string
 	n      int
@@ -214,6 +232,8 @@ type adapter struct {
 	am     *account.Manager
 	snaps  []int       // real revision ids of the live spec revisions
 	parent common.Hash // the block the manager is based on
+	ops    []op        // surviving setter calls
+	opIdx  []int       // len(ops) at each live snapshot
 }
 
 func (a *adapter) closeDB() {
@@ -226,20 +246,46 @@ func (a *adapter) closeDB() {
 	}
 }
 
-func (a *adapter) obs() map[string]interface{} {
+func (a *adapter) obs() map[string]interface{} { return obsOf(a.am) }
+
+func obsOf(am *account.Manager) map[string]interface{} {
 	o := map[string]interface{}{}
 	for _, n := range names {
-		o[n] = project(a.am.GetAccount(addrs[n]))
+		o[n] = project(am.GetAccount(addrs[n]))
 	}
 	return o
 }
 
+// pubOf renders the change logs a block publishes: account, log type, version and the hash of the log's published
+// encoding (what enters the block's LogRoot).
+func pubOf(logs types.ChangeLogSlice, name func(common.Address) string) []map[string]interface{} {
+	out := make([]map[string]interface{}, 0, len(logs))
+	for _, l := range logs {
+		out = append(out, map[string]interface{}{"a": name(l.Address), "t": l.LogType.String(), "v": int(l.Version), "d": l.Hash().Hex()[:18]})
+	}
+	return out
+}
+
 func (a *adapter) fields(extra engine.Fields) engine.Fields {
-	f := engine.Fields{"obs": a.obs(), "nlogs": len(a.am.GetChangeLogs()), "zero": common.Hash{}.Hex()}
+	f := engine.Fields{"obs": a.obs(), "nlogs": len(a.am.GetChangeLogs()), "zero": common.Hash{}.Hex(), "emptyroot": emptyTrieRoot(a.db)}
 	for k, v := range extra {
 		f[k] = v
 	}
 	return f
+}
+
+var emptyRootHex string
+
+// emptyTrieRoot is the hash the code base computes for a trie without entries (not the zero hash).
+func emptyTrieRoot(db protocol.ChainDB) string {
+	if emptyRootHex == "" {
+		tr, err := trie.NewSecure(common.Hash{}, db.GetTrieDatabase(), 0)
+		if err != nil {
+			engine.Failf("empty trie: %v", err)
+		}
+		emptyRootHex = tr.Hash().Hex()
+	}
+	return emptyRootHex
 }
 
 func errStr(err error) string {
@@ -389,7 +435,7 @@ func (a *adapter) Reset(init map[string]tla.Value) (engine.Fields, error) {
 	}
 	newCodes(a.n)
 	a.am = account.NewManager(common.Hash{}, a.db)
-	a.snaps = nil
+	a.snaps, a.ops, a.opIdx = nil, nil, nil
 	a.parent = common.Hash{}
 	if st, ok := init["st"]; ok {
 		if err := a.setupBase(st); err != nil {
@@ -409,10 +455,12 @@ func (a *adapter) Apply(s engine.Step) (engine.Fields, error) {
 			engine.Failf("unknown account %q", n)
 		}
 		err := set(a.am.GetAccount(ad), k, arg[2])
+		a.ops = append(a.ops, op{n, k, arg[2]})
 		return a.fields(engine.Fields{"err": errStr(err)}), nil
 	case "Snapshot":
 		id := a.am.Snapshot()
 		a.snaps = append(a.snaps, id)
+		a.opIdx = append(a.opIdx, len(a.ops))
 		return a.fields(engine.Fields{"id": id}), nil
 	case "Revert":
 		i := arg[0].I()
@@ -421,6 +469,7 @@ func (a *adapter) Apply(s engine.Step) (engine.Fields, error) {
 		}
 		id := a.snaps[i-1]
 		a.snaps = a.snaps[:i-1]
+		a.ops, a.opIdx = a.ops[:a.opIdx[i-1]], a.opIdx[:i-1]
 		a.am.RevertToSnapshot(id) // a panic is caught and logged by the engine
 		return a.fields(engine.Fields{"id": id}), nil
 	case "Seal":
@@ -428,20 +477,46 @@ func (a *adapter) Apply(s engine.Step) (engine.Fields, error) {
 		a.am.MergeChangeLogs()
 		ferr := a.am.Finalise()
 		logs := a.am.GetChangeLogs()
-		kinds := make([]string, 0, len(logs))
-		for _, l := range logs {
-			kinds = append(kinds, addrName(l.Address)+":"+l.LogType.String())
+		f := a.fields(engine.Fields{"err": errStr(ferr), "pub": pubOf(logs, addrName)})
+		// ... the same block built by a second manager that executes the surviving setter calls only: no snapshot
+		// was ever taken there and nothing was ever reverted ...
+		cm := account.NewManager(a.parent, a.db)
+		var cerr error
+		cleanops := make([]interface{}, 0, len(a.ops))
+		for _, o := range a.ops {
+			if err := set(cm.GetAccount(addrs[o.n]), o.k, o.v); err != nil && cerr == nil {
+				cerr = err
+			}
+			cleanops = append(cleanops, []interface{}{o.n, o.k, o.v.JSON()})
 		}
-		f := a.fields(engine.Fields{"err": errStr(ferr), "pub": kinds})
-		// ... and let a manager that only has the parent state replay them (Manager.RebuildAll), then finalise
+		cm.MergeChangeLogs()
+		if err := cm.Finalise(); err != nil && cerr == nil {
+			cerr = err
+		}
+		f["cleanops"], f["cerr"], f["clean"], f["cleanpub"] = cleanops, errStr(cerr), obsOf(cm), pubOf(cm.GetChangeLogs(), addrName)
+		// ... a node that only has the parent state replays the published logs (Manager.RebuildAll), then finalises ...
 		blk := &types.Block{ChangeLogs: logs}
-		blk.SetHeader(&types.Header{ParentHash: a.parent, Height: 1})
-		rerr := a.am.RebuildAll(blk)
-		if rerr == nil {
-			rerr = a.am.Finalise()
+		hd := &types.Header{ParentHash: a.parent, Height: 1, Time: uint32(1600000000 + a.n), VersionRoot: a.am.GetVersionRoot()}
+		if a.parent == (common.Hash{}) {
+			hd.Height = 0
 		}
-		f["rerr"] = errStr(rerr)
-		f["redo"] = a.obs()
+		blk.SetHeader(hd)
+		rm := account.NewManager(a.parent, a.db)
+		rerr := rm.RebuildAll(blk)
+		if rerr == nil {
+			rerr = rm.Finalise()
+		}
+		f["rerr"], f["redo"] = errStr(rerr), obsOf(rm)
+		// ... and the block is saved; a fresh manager on the new block reads back what later blocks will build on
+		h := blk.Hash()
+		serr := a.db.SetBlock(h, blk)
+		if serr == nil {
+			serr = a.am.Save(h)
+		}
+		f["serr"] = errStr(serr)
+		if serr == nil {
+			f["saved"] = obsOf(account.NewManager(h, a.db))
+		}
 		return f, nil
 	}
 	return nil, fmt.Errorf("unknown action %s", s.Act.Name)
